@@ -61,9 +61,13 @@ contract(M, 'dfa_remove_unreachable_states', {'D': 'DFA'}, returns='DFA', requir
 
 contract(M, 'dfa_no_extend', {'D': 'DFA'}, returns='DFA', requires=['dfa_wf(D)'],
          ensures=['dfa_wf(result)', 'result.Q == D.Q', 'result.Sigma == D.Sigma', 'result.q0 == D.q0', 'result.delta == D.delta',
-                  'all((x in result.F) == (x in D.F and (Reach1(D, x) & D.F) == set_empty()) for x in atoms())'],
-         theories=['word', 'dfa'], props=['C14', 'C19'],
-         note='structural contract: F\' = accepting states from which no accepting state is reachable by a non-empty path; the word-level reading is checked exactly by the bounded stand-in')
+                  'all((x in result.F) == (x in D.F and (Reach1(D, x) & D.F) == set_empty()) for x in atoms())',
+                  # the property itself, over words: w is accepted iff D accepts w and no proper extension of w
+                  'all(implies(over(D.Sigma, w) and dfa_accepts(result, w), dfa_accepts(D, w)) for w in allwords())',
+                  'all(implies(over(D.Sigma, w) and dfa_accepts(result, w) and v != nil() and over(D.Sigma, v), not dfa_accepts(D, app(w, v))) for w in allwords() for v in allwords())',
+                  'all(implies(over(D.Sigma, w) and dfa_accepts(D, w) and not dfa_accepts(result, w), any(v != nil() and over(D.Sigma, v) and dfa_accepts(D, app(w, v)) for v in allwords())) for w in allwords())'],
+         theories=['word', 'wordx', 'dfa', 'nfa', 'dfax'], props=['C14', 'C19'],
+         note='F\' = accepting states from which no accepting state is reachable by a non-empty path; with the lemmas Reach1-of-word / Reach1-has-word / dhat-app this is the word-level statement L(result) = {w in L(D) | no proper extension of w in L(D)}')
 
 contract(M, 'dfa_make_total_in_place', {'D': 'DFA'}, returns='None', modifies=['D'], requires=['dfa_pwf(D)'],
          ensures=['dfa_wf(D)', 'D.Sigma == old(D.Sigma)', 'D.q0 == old(D.q0)', 'D.F == old(D.F)', 'old(D.Q) <= D.Q',
@@ -86,8 +90,13 @@ contract(M, 'dfa_make_total', {'D': 'DFA'}, returns='DFA', requires=['dfa_pwf(D)
                   'all(implies((x, a) in D.delta, result.delta[(x, a)] == D.delta[(x, a)]) for x in atoms() for a in atoms())',
                   'all(implies(x in D.Q and a in D.Sigma and (x, a) not in D.delta, result.delta[(x, a)] not in D.Q) for x in atoms() for a in atoms())',
                   'all(implies(x in result.Q and x not in D.Q and a in D.Sigma, result.delta[(x, a)] == x) for x in atoms() for a in atoms())',
-                  'all(implies(x in result.Q and x not in D.Q, x not in result.F) for x in atoms())'],
-         theories=['naming'], props=['C14', 'C19'])
+                  'all(implies(x in result.Q and x not in D.Q, x not in result.F) for x in atoms())',
+                  'tot_struct(D, result)',
+                  # the property itself, over words: the language of the partial DFA (the run exists and ends in F) is unchanged
+                  'all(implies(over(D.Sigma, w), dfa_accepts(result, w) == pdfa_accepts(D, w)) for w in allwords())'],
+         asserts=['tot_struct(D, result)'],
+         theories=['naming', 'word', 'wordx', 'dfa', 'nfa', 'dfax'], props=['C14', 'C19'],
+         note='with lemma total-sim (word induction): as long as the run of D exists the total DFA follows it, afterwards it stays outside D.Q where nothing is accepting')
 
 _PT = "product_type == 'union' or product_type == 'intersection' or product_type == 'symmetric_difference'"
 _PF = ("implies(product_type == 'union', all((pair_name(x, y) in result.F) == (x in D1.F or y in D2.F) for x in D1.Q for y in D2.Q))",
@@ -114,8 +123,10 @@ for _name, _lit, _op in (('dfa_union', 'union', 'or'), ('dfa_intersection', 'int
                       'all(implies(over(D1.Sigma, w), dhat(result, result.q0, w) == pair_name(dhat(D1, D1.q0, w), dhat(D2, D2.q0, w))) for w in allwords())'],
              theories=['word', 'dfa', 'naming'], props=['C14', 'C19', 'C12'])
 
-contract(M, 'fresh_epsilon', {'Sigma': 'Set[Symbol]'}, returns='Symbol', ensures=['result not in Sigma'], verify=False,
-         theories=['word'], props=['C14'], note='generator over an infinite supply of characters (itertools.chain/count): outside the subset; assumed, bounded check in C14')
+contract(M, 'fresh_epsilon', {'Sigma': 'Set[Symbol]'}, returns='Symbol', ensures=['result not in Sigma'],
+         theories=['word'], props=['C14'],
+         note='first element of an unbounded character supply (itertools.chain/count) that passes the filter: whatever is returned passed the filter (proved); '
+              'that the supply is not exhausted first (StopIteration / chr() range) is assumption A-char-supply')
 
 _REV_INV = ['all((q in lookup(delta, (q1, a))) == ((q, a) in doneK and D.delta[(q, a)] == q1) for q in atoms() for q1 in atoms() for a in atoms())',
             'all(implies((q1, a) in delta, any((q, a) in doneK and D.delta[(q, a)] == q1 for q in atoms())) for q1 in atoms() for a in atoms())',
@@ -125,22 +136,35 @@ contract(M, 'dfa_reverse', {'D': 'DFA'}, returns='NFA', requires=['dfa_wf(D)'],
                   'all((q in step(result, q1, a)) == (q in D.Q and D.delta[(q, a)] == q1) for q in atoms() for q1 in D.Q for a in D.Sigma)',
                   'step(result, result.q0, result.epsilon) == D.F',
                   'all(step(result, x, result.epsilon) == set_empty() for x in D.Q)',
-                  'all(step(result, result.q0, a) == set_empty() for a in D.Sigma)'],
+                  'all(step(result, result.q0, a) == set_empty() for a in D.Sigma)',
+                  'rev_struct(D, result)',
+                  # the property itself, over words: w is accepted iff D accepts the mirror image of w
+                  'all(implies(over(D.Sigma, w), nfa_accepts(result, w) == dfa_accepts(D, rev(w))) for w in allwords())'],
          types={'delta': 'Map[(State,Symbol),Set[State],default=set]'},
-         asserts=['all((q in lookup(result.delta, (q1, a))) == (q in D.Q and D.delta[(q, a)] == q1) for q in atoms() for q1 in D.Q for a in D.Sigma)'],
+         asserts=['all((q in lookup(result.delta, (q1, a))) == (q in D.Q and D.delta[(q, a)] == q1) for q in atoms() for q1 in D.Q for a in D.Sigma)',
+                  'all(implies(a in D.Sigma, (q in step(result, q1, a)) == (q in D.Q and q1 in D.Q and D.delta[(q, a)] == q1)) for q in atoms() for q1 in atoms() for a in atoms())',
+                  'all((q in step(result, q1, result.epsilon)) == (q1 == result.q0 and q in D.F) for q in atoms() for q1 in atoms())',
+                  'rev_struct(D, result)',
+                  'all(implies(over(D.Sigma, w), all((x in Nhat(result, w)) == ((x == result.q0 or x in D.F) if w == nil() else (x in D.Q and dhat(D, x, rev(w)) in D.F)) for x in atoms())) for w in allwords())'],
          loops={1: {'ghost': 'doneK', 'invariant': _REV_INV}},
-         theories=['naming'], props=['C14', 'C19'],
-         note='structural contract (exact transition relation of the reversed automaton); L(result) = mirror image is checked exactly by the bounded stand-in')
+         theories=['naming', 'word', 'wordx', 'dfa', 'nfa', 'dfax'], props=['C14', 'C19'],
+         note='exact transition relation of the reversed automaton; with lemma reverse-sim (word induction) the word-level statement follows: result accepts w iff D accepts rev(w)')
 
 contract(M, 'dfa_no_prefix', {'D': 'DFA'}, returns='NFA', requires=['dfa_wf(D)'],
          ensures=['nfa_wf(result)', 'result.q0 == D.q0', 'result.Q == D.Q', 'result.Sigma == D.Sigma', 'result.F == D.F', 'result.epsilon not in D.Sigma',
-                  'all((q1 in step(result, q, a)) == (q in D.Q and q not in D.F and a in D.Sigma and D.delta[(q, a)] == q1) for q in atoms() for q1 in atoms() for a in atoms())'],
+                  'all((q1 in step(result, q, a)) == (q in D.Q and q not in D.F and a in D.Sigma and D.delta[(q, a)] == q1) for q in atoms() for q1 in atoms() for a in atoms())',
+                  'np_struct(D, result)',
+                  # the property itself, over words: accepted iff D accepts w and none of its proper prefixes
+                  'all(implies(over(D.Sigma, w), nfa_accepts(result, w) == (dfa_accepts(D, w) and nap(D, w))) for w in allwords())',
+                  'all(implies(over(D.Sigma, w) and nfa_accepts(result, w) and isprefix(u, w) and u != w, not dfa_accepts(D, u)) for w in allwords() for u in allwords())'],
          types={'delta': 'Map[(State,Symbol),Set[State],default=set]'},
-         asserts=['all((q1 in lookup(result.delta, (q, a))) == (q in D.Q and q not in D.F and a in D.Sigma and D.delta[(q, a)] == q1) for q in atoms() for q1 in atoms() for a in atoms())'],
+         asserts=['all((q1 in lookup(result.delta, (q, a))) == (q in D.Q and q not in D.F and a in D.Sigma and D.delta[(q, a)] == q1) for q in atoms() for q1 in atoms() for a in atoms())',
+                  'np_struct(D, result)',
+                  'all(implies(over(D.Sigma, w), all((x in Nhat(result, w)) == (nap(D, w) and x == dhat(D, D.q0, w)) for x in atoms())) for w in allwords())'],
          loops={1: {'ghost': 'doneK', 'invariant': ['all((q1 in lookup(delta, (q, a))) == ((q, a) in doneK and q not in D.F and D.delta[(q, a)] == q1) for q in atoms() for q1 in atoms() for a in atoms())',
                                                   'all(implies((q, a) in delta, (q, a) in doneK) for q in atoms() for a in atoms())', 'epsilon not in D.Sigma']}},
-         theories=['naming'], props=['C14', 'C19'],
-         note='structural contract: transitions leaving accepting states are cut; the prefix-free reading is checked exactly by the bounded stand-in')
+         theories=['naming', 'word', 'wordx', 'dfa', 'nfa', 'dfax'], props=['C14', 'C19'],
+         note='transitions leaving accepting states are cut; with lemma noprefix-sim the word-level statement follows: w accepted iff D accepts w and no proper prefix of w (nap, lemma nap-prefixes)')
 
 # ---------------------------------------------------------------------------------------------- C20
 _ISO = 'isomorphic(D1, D2)'
